@@ -104,12 +104,18 @@ def verbStart (e : Env) (f : List (List Nat)) : List Nat :=
   | none => str "parse-error"
   | some prog => VM.observeStart prog globals maxRuntime maxLoops age (assemble e.real)
 
+def verbEq (e : Env) (f : List (List Nat)) : List Nat :=
+  match assemble e.real (f.headD []) with
+  | none => str "parse-error"
+  | some prog => VM.observeEq prog (assemble e.real)
+
 def handle (e : Env) (verb : String) (f : List (List Nat)) : List Nat :=
   if verb == "asm" then verbAsm e f
   else if verb == "lex" then verbLex f
   else if verb == "run" then verbRun e f false
   else if verb == "trace" then verbRun e f true
   else if verb == "start" then verbStart e f
+  else if verb == "eq" then verbEq e f
   else str "bad-verb"
 
 partial def loop (e : Env) (h : IO.FS.Stream) (out : IO.FS.Stream) : IO Unit := do
